@@ -9,14 +9,25 @@ mkdir -p $dst
 log=$dst/confirm.log; : > $log
 cd $wt || exit 2
 git checkout -q -- . && git clean -fdq
-demo_test=$(grep -ho "fn [a-z_0-9]*" $out/demo.diff | head -1 | sed 's/fn //')
 demo_file=$(grep -h "^+++ b/" $out/demo.diff | head -1 | sed 's#+++ b/##')
-echo "demo file: $demo_file  first test fn: $demo_test" >> $log
+demo_tests=$(python3 - "$out/demo.diff" <<'PY'
+import re,sys
+lines=open(sys.argv[1]).read().splitlines()
+names=[]
+for i,l in enumerate(lines):
+    if re.match(r"^\+\s*#\[(tokio::)?test", l):
+        for j in range(i+1,min(i+6,len(lines))):
+            m=re.search(r"fn\s+([a-zA-Z0-9_]+)", lines[j])
+            if m: names.append(m.group(1)); break
+print(" ".join(names))
+PY
+)
+echo "demo file: $demo_file  tests: $demo_tests" >> $log
 git apply $out/demo.diff || { echo "DEMO DOES NOT APPLY" >> $log; exit 2; }
 if [[ "$demo_file" == dds/tests/* ]]; then
   tname=$(basename $demo_file .rs); sel="--test $tname"
 else
-  sel="--lib $demo_test"
+  sel="--lib -- $demo_tests"
 fi
 echo "### demo on clean tree: cargo test -p dust_dds --offline $sel" >> $log
 ( cd $wt && timeout 1500 cargo test -p dust_dds --offline $sel 2>&1 | grep -E "^test |test result|error(\[|:)" | tail -15 ) >> $log 2>&1
